@@ -99,6 +99,30 @@ class EvalMixin:
 
         return self.ev_list(list(e.keys) + list(e.values), st, done)
 
+    def dict_merge_into(self, st1, r, sr):
+        """d.update(s) / {**d, **s} on the heap: d's key set becomes the union, a key of s takes s's value (point-wise array
+        combinators over two declared functions with one defining axiom each: no quantifier over keys)."""
+        has_d, val_d = z3.Select(st1.H("$dhas"), r), z3.Select(st1.H("$dval"), r)
+        has_s, val_s = z3.Select(st1.H("$dhas"), sr), z3.Select(st1.H("$dval"), sr)
+        or2 = self.get_uf("map_or2", [z3.BoolSort(), z3.BoolSort()], z3.BoolSort())
+        itv = self.get_uf("map_ite_val", [z3.BoolSort(), Val, Val], Val)
+        pb, qb = z3.Bool("p!mo"), z3.Bool("q!mo")
+        av, bv = z3.Const("a!mo", Val), z3.Const("b!mo", Val)
+        for ax in (z3.ForAll([pb, qb], or2(pb, qb) == z3.Or(pb, qb), patterns=[or2(pb, qb)]),
+                   z3.ForAll([pb, av, bv], itv(pb, av, bv) == z3.If(pb, av, bv), patterns=[itv(pb, av, bv)])):
+            if not any(a.eq(ax) for a in self.global_axioms):
+                self.global_axioms.append(ax)
+        nh = z3.Map(or2, has_d, has_s)
+        nv = z3.Map(itv, has_s, val_s, val_d)
+        n = smt.fresh("mlen", IntS)
+        # the length is not tracked exactly: max(len a, len b) <= len <= len a + len b (quantifier-free)
+        la, lb = z3.Select(st1.H("$len"), r), z3.Select(st1.H("$len"), sr)
+        st1.assume(n >= la, n >= lb, n <= la + lb)
+        st1.setH("$dhas", z3.Store(st1.H("$dhas"), r, nh))
+        st1.setH("$dval", z3.Store(st1.H("$dval"), r, nv))
+        st1.setH("$len", z3.Store(st1.H("$len"), r, n))
+        self.written.update(("$dhas", "$dval", "$len"))
+
     def e_dict_unpack(self, e, st, k):
         """{**a, k: v, **b}: a fresh dict built left to right; a later part overrides an earlier one key by key."""
         parts = []  # ("kv", key expr, value expr) | ("unpack", expr)
@@ -118,27 +142,7 @@ class EvalMixin:
                 src = self.narrow(st1, next(it))
                 if src.ty != "dict":
                     raise Unsupported("dict unpacking of a non-dict")
-                sr = Val.r(src.t)
-                has_d, val_d = z3.Select(st1.H("$dhas"), r), z3.Select(st1.H("$dval"), r)
-                has_s, val_s = z3.Select(st1.H("$dhas"), sr), z3.Select(st1.H("$dval"), sr)
-                # point-wise array combinators (no quantifier over keys): has' = has_d or has_s ; val' = ite(has_s, val_s, val_d)
-                or2 = self.get_uf("map_or2", [z3.BoolSort(), z3.BoolSort()], z3.BoolSort())
-                itv = self.get_uf("map_ite_val", [z3.BoolSort(), Val, Val], Val)
-                pb, qb = z3.Bool("p!mo"), z3.Bool("q!mo")
-                av, bv = z3.Const("a!mo", Val), z3.Const("b!mo", Val)
-                for ax in (z3.ForAll([pb, qb], or2(pb, qb) == z3.Or(pb, qb), patterns=[or2(pb, qb)]),
-                           z3.ForAll([pb, av, bv], itv(pb, av, bv) == z3.If(pb, av, bv), patterns=[itv(pb, av, bv)])):
-                    if not any(a.eq(ax) for a in self.global_axioms):
-                        self.global_axioms.append(ax)
-                nh = z3.Map(or2, has_d, has_s)
-                nv = z3.Map(itv, has_s, val_s, val_d)
-                n = smt.fresh("mlen", IntS)
-                # the length is not tracked exactly: max(len a, len b) <= len <= len a + len b (quantifier-free)
-                la, lb = z3.Select(st1.H("$len"), r), z3.Select(st1.H("$len"), sr)
-                st1.assume(n >= la, n >= lb, n <= la + lb)
-                st1.setH("$dhas", z3.Store(st1.H("$dhas"), r, nh))
-                st1.setH("$dval", z3.Store(st1.H("$dval"), r, nv))
-                st1.setH("$len", z3.Store(st1.H("$len"), r, n))
+                self.dict_merge_into(st1, r, Val.r(src.t))
             return k(st1, SV(ref, "dict"))
 
         return self.ev_list(exprs, st, done)
